@@ -3,6 +3,7 @@
 // records one ndjson event per public call.  It never decides anything.
 
 mod field;
+mod frost;
 mod group;
 mod hash;
 mod lms;
@@ -67,6 +68,7 @@ fn main() {
         "xdh" => sig::run_xdh(&mut tr, &mut rng, num("n", 40)),
         "eddsa" => sig::run_eddsa(&mut tr, &mut rng, &get("curve", "ed25519"), num("honest", 12), num("adv", 24)),
         "ecdsa" => sig::run_ecdsa(&mut tr, &mut rng, &get("curve", "p256"), num("honest", 12), num("adv", 12)),
+        "frost" => frost::run(&mut tr, &mut rng, &get("script", "")),
         "lms" => lms::run(&mut tr, &mut rng, &get("script", ""), num("deep", 0)),
         "hash" => hash::run(&mut tr, &mut rng, &get("script", "")),
         _ => {
